@@ -3,6 +3,7 @@ EXTENDS BabbleDyn
 MCNoEv == << 0, -1 >>
 Gen1 == << 1 >>
 Gen2 == << 1, 2 >>
+Gen4 == << 1, 2, 3, 4 >>
 MCView == << D, nodes, msgs >>
 \* reachability controls (expected to be violated: the interesting states are within the bounds)
 NoBlockOfGrownSet == \A n \in Nodes : \A i \in 1..Len(Out(n)) : Len(Out(n)[i].peers) < 2
